@@ -98,6 +98,7 @@ class PathCtx:
         self.n_heavy = 0
         self.last_model = None
         self.check_div = False
+        self.angle_inputs = {}
         self.div_zero = []
         self.atoms = []
         self.atom_keys = []
